@@ -175,6 +175,70 @@ func c03Generate(w *c03World, rng *rand.Rand, n int) []c03Probe {
 			}
 		}
 	}
+	// many-segment family ("arbitrary segmentation" includes a peer that dribbles its stream): short probes
+	// that arrive in 129…1000 reads while at least one transport (obfs4, < 8192 bytes) is still undecided.
+	// Every byte its own segment for the 150–600-byte probes, 4-byte segments for the 2 KiB ones.
+	everyK := func(l, k int) []int {
+		var c []int
+		for i := k; i < l; i += k {
+			c = append(c, i)
+		}
+		return c
+	}
+	msEnds := []string{"deadline", "eof", "deadline", "rst"}
+	msN := 0
+	addMS := func(reg, kind string, data []byte, k int) {
+		out = append(out, c03Probe{Registry: reg, Kind: "manyseg:" + kind, Data: data, Cuts: everyK(len(data), k), End: msEnds[msN%len(msEnds)]})
+		msN++
+	}
+	for _, reg := range []string{"none", "onemin", "many", "obfs4", "many6"} {
+		// random bytes
+		for _, l := range []int{150, 200, 333, 600} {
+			addMS(reg, "random", randBytes(l), 1)
+		}
+		addMS(reg, "random", randBytes(2048), 4)
+		addMS(reg, "random", randBytes(1000), 1)
+		// static prefix + garbage
+		for i, p := range vAllPrefixIDs {
+			pre := prefix.DefaultPrefixes[p].Bytes()
+			l, k := 200+rng.Intn(401), 1
+			if i%4 == 3 {
+				l, k = 2048, 4
+			}
+			addMS(reg, "static-prefix+garbage:"+p.Name(), append(append([]byte{}, pre...), randBytes(l)...), k)
+		}
+		// bit-flipped genuine flights (of a registration on this phantom, or on another one), padded with garbage
+		regs := w.phantoms[reg]
+		if len(regs) == 0 {
+			regs = w.phantoms["many"]
+		}
+		for i := 0; i < 3; i++ {
+			r := regs[rng.Intn(len(regs))]
+			from, to, skip := c03TagBits(r)
+			if to <= from {
+				continue
+			}
+			bit := from + rng.Intn(to-from)
+			for skip[bit] {
+				bit = from + rng.Intn(to-from)
+			}
+			data := flipBit(r.flight, bit)
+			l, k := 200+rng.Intn(401), 1
+			if i == 2 {
+				l, k = 2048, 4
+			}
+			if len(data) < l {
+				data = append(data, randBytes(l-len(data))...)
+			}
+			if len(data) > 1000 {
+				k = 4
+			}
+			if len(data) > 4000 {
+				k = 8
+			}
+			addMS(reg, fmt.Sprintf("bitflip:%s", r.spec.TT), data, k)
+		}
+	}
 	for len(out) < n {
 		reg := registries[rng.Intn(len(registries))]
 		switch rng.Intn(6) {
